@@ -18,7 +18,8 @@ Holds(c, want) == CASE want = "eq" -> c = "eq"
                     [] want = "gt" -> c = "gt"
 TInit == tid \in 1..NT /\ l = 2 /\ fails = {}
 TRel == /\ l <= Len(Tr) /\ Ev.e = "rel"
-        /\ fails' = IF ~Holds(Ev.c, Ev.want) /\ Cardinality(fails) < 12 /\ (\A x \in fails : ~(x[1] = Ev.group /\ x[2] = Ev.name)) THEN fails \cup {<<Ev.group, Ev.name, Ev.c, Ev.want>>} ELSE fails
+        \* the first failing instance of every group is kept (a total cap would let early failures hide later groups)
+        /\ fails' = IF ~Holds(Ev.c, Ev.want) /\ (\A x \in fails : x[1] # Ev.group) THEN fails \cup {<<Ev.group, Ev.name, Ev.c, Ev.want>>} ELSE fails
         /\ l' = l + 1 /\ tid' = tid
 TExc == /\ l <= Len(Tr) /\ Ev.e = "exception" /\ fails' = fails \cup {<<"exception", Ev.msg, "", "">>} /\ l' = l + 1 /\ tid' = tid
 TNext == TRel \/ TExc
